@@ -3,7 +3,8 @@
    that instance; all other cables stay in their definition; wires, ports and pins keep their owner. *)
 From Coq Require Import List Arith NArith Bool Lia.
 From SV Require Import Base.Base IR.State IR.NS IR.Ops Xform.Clone Xform.Strs Xform.Xform Hier.Paths
-  Proofs.Inv1a Proofs.Inv2a Proofs.InvW Proofs.CloneFull Proofs.FlatLeaf Proofs.FlatEff Proofs.FlatPaths Proofs.FlatWalk.
+  Proofs.Inv1a Proofs.Inv2a Proofs.InvW Proofs.CloneFull Proofs.FlatLeaf Proofs.FlatEff Proofs.FlatPaths Proofs.FlatWalk
+  Proofs.FlatNames.
 Import ListNotations.
 
 (* cb belongs to the definition of a non-leaf instance strictly below the top instance *)
@@ -70,12 +71,27 @@ Section Results.
     par (st x') r y = par (st x) r y /\ kids (st x') r y = kids (st x) r y.
   Proof. destruct (flatten_spec fuel x n x' t topd U0 Hu Htop Ht E) as [done [F _]]. apply (fs_paro _ _ _ _ _ F). Qed.
 
-  (* the name of a cable that came up: flat name of its instance, "/", its own name *)
+  (* the name of a cable that came up: flat name of its instance, "/", its own name (a missing name
+     counting as the empty string on either side) *)
   Theorem flatten_cable_name y z p d cb :
     is_rpath (st x) t (y :: z :: p) -> iref (st x) y = Some d -> is_leaf_def (st x) d = false ->
     par (st x) RCables cb = Some d ->
-    exists a, pname (st x) (y :: z :: p) = Some a /\ get_str (st x') cb str_NAME = joino a (get_str (st x) cb str_NAME).
-  Proof. destruct (flatten_spec fuel x n x' t topd U0 Hu Htop Ht E) as [done [F _]]. apply (fs_namec _ _ _ _ _ F). Qed.
+    get_str (st x') cb str_NAME = Some (oe (fname (st x) (y :: z :: p)) ++ str_slash ++ oe (get_str (st x) cb str_NAME)).
+  Proof.
+    intros Hp Hr Hl Hpc. destruct (flatten_spec fuel x n x' t topd U0 Hu Htop Ht E) as [done [F _]].
+    rewrite (fs_namec _ _ _ _ _ F y z p d cb Hp Hr Hl Hpc), pname_cons2. reflexivity.
+  Qed.
+
+  (* ... so a named cable below instances that all have names is called by the slash-joined path *)
+  Theorem flatten_cable_name_joined y z p d cb l nm :
+    is_rpath (st x) t (y :: z :: p) -> iref (st x) y = Some d -> is_leaf_def (st x) d = false ->
+    par (st x) RCables cb = Some d -> onames (st x) (y :: z :: p) = Some l -> get_str (st x) cb str_NAME = Some nm ->
+    get_str (st x') cb str_NAME = Some (join_slash (l ++ [nm])).
+  Proof.
+    intros Hp Hr Hl Hpc Ho Hn. rewrite (flatten_cable_name y z p d cb Hp Hr Hl Hpc), Hn.
+    pose proof (onames_nonempty _ _ _ _ _ Ho) as Hne.
+    rewrite (fname_join _ _ _ Ho Hne), (join_slash_snoc l nm Hne). reflexivity.
+  Qed.
 
   (* objects that are neither instances below the top nor moved cables keep their whole dictionary *)
   Theorem flatten_untouched_data y : ~ Below (st x) t y -> ~ MovedCable (st x) t y -> data (st x') y = data (st x) y.
